@@ -1080,3 +1080,249 @@ func ruleC01Rewrap(p *Prog, a *Anchors, r *Report) {
 		r.Trivial("none", "-", "execution code builds no execution error from the text of an error value")
 	}
 }
+
+// R-C01-COUNTERWRITE: the nesting bounds hold only if the counters behind them are written by nobody but the counting
+// itself. Every store to a field that a refusing comparison reads (template.level, Parser.depth, the depth fields of
+// the execution context …) is therefore a step (the field ± something), a hand-over of the same field's value from
+// another object (a child context, a saved value put back), a counted parameter, or the initialisation of an object
+// made in the same function. A store of anything else — `level = 1` around the body of a macro — restarts the count:
+// the recursion the counter bounds becomes unbounded again.
+func ruleC01CounterWrites(p *Prog, a *Anchors, r *Report) {
+	r.Begin("R-C01-COUNTERWRITE", "a field read by a refusing depth comparison is stored only by steps of itself, copies of the same field, counted parameters or the initialisation of a fresh object: nothing restarts the count", 4)
+	type fkey struct {
+		T   string
+		idx int
+	}
+	counters := map[fkey]string{}
+	fieldOf := func(v ssa.Value) (*ssa.FieldAddr, bool) {
+		if u, ok := v.(*ssa.UnOp); ok && u.Op == token.MUL {
+			fa, ok := u.X.(*ssa.FieldAddr)
+			return fa, ok
+		}
+		return nil, false
+	}
+	keyOf := func(fa *ssa.FieldAddr) (fkey, string, bool) {
+		n := structOf(fa.X.Type())
+		if n == nil {
+			return fkey{}, "", false
+		}
+		st, ok := n.Underlying().(*types.Struct)
+		if !ok || fa.Field >= st.NumFields() {
+			return fkey{}, "", false
+		}
+		return fkey{n.Obj().Name(), fa.Field}, n.Obj().Name() + "." + st.Field(fa.Field).Name(), true
+	}
+	for _, f := range p.inPkgFuncsSorted(p.allFuncSet()) {
+		for _, b := range f.Blocks {
+			iff, ok := b.Instrs[len(b.Instrs)-1].(*ssa.If)
+			if !ok {
+				continue
+			}
+			c, pol := normCond(iff.Cond, true)
+			bo, isBo := c.(*ssa.BinOp)
+			if !isBo {
+				continue
+			}
+			if !refusingCompare(p, f, c) {
+				// … or an int field compared with a constant whose "beyond" edge only returns errors (the field is
+				// stepped elsewhere: superDepth in Super, compared in the block tag)
+				_, isK := constInt(bo.Y)
+				_, isF := fieldOf(bo.X)
+				idx := 0
+				if !pol {
+					idx = 1
+				}
+				if !isK || !isF || (bo.Op != token.GTR && bo.Op != token.GEQ) || !errorReturnsOnly(f, b.Succs[idx]) {
+					continue
+				}
+				if fa, _ := fieldOf(bo.X); !steppedSomewhere(p, fa) {
+					continue
+				}
+			}
+			for _, side := range []ssa.Value{bo.X, bo.Y} {
+				if add, ok := side.(*ssa.BinOp); ok && add.Op == token.ADD {
+					side = add.X
+				}
+				if fa, ok := fieldOf(side); ok {
+					if k, name, ok := keyOf(fa); ok {
+						counters[k] = name
+					}
+				}
+			}
+		}
+	}
+	if len(counters) == 0 {
+		r.Unk("none", "-", "no counter field read by a refusing comparison found")
+		return
+	}
+	// a counter handed on as a parameter is stored somewhere as well (ctx.depth = depth): the fields such a parameter is
+	// stored into are counters, too
+	n := 0
+	for _, f := range p.inPkgFuncsSorted(p.allFuncSet()) {
+		for _, b := range f.Blocks {
+			for _, in := range b.Instrs {
+				st, ok := in.(*ssa.Store)
+				if !ok {
+					continue
+				}
+				fa, ok := st.Addr.(*ssa.FieldAddr)
+				if !ok {
+					continue
+				}
+				k, name, ok := keyOf(fa)
+				if !ok || counters[k] == "" {
+					continue
+				}
+				n++
+				key := p.FuncName(topLevel(f)) + ":" + name
+				same := func(v ssa.Value) bool {
+					fb, ok := fieldOf(v)
+					if !ok {
+						return false
+					}
+					k2, _, ok := keyOf(fb)
+					return ok && k2 == k
+				}
+				var okVal func(v ssa.Value, d int) string
+				okVal = func(v ssa.Value, d int) string {
+					if d > 6 {
+						return ""
+					}
+					switch x := v.(type) {
+					case *ssa.BinOp:
+						if (x.Op == token.ADD || x.Op == token.SUB) && (same(x.X) || okVal(x.X, d+1) != "") {
+							return "a step of the counter"
+						}
+					case *ssa.UnOp:
+						if same(x) {
+							return "the same counter of another object (or its own earlier value)"
+						}
+						if sv := stripLoad(x); sv != ssa.Value(x) {
+							return okVal(sv, d+1)
+						}
+						// a captured local that holds an earlier value of the counter
+						if cell := cellOf(x); cell != "" {
+							all := true
+							var stores []ssa.Value
+							switch ad := x.X.(type) {
+							case *ssa.Alloc:
+								stores = allStoresTo(ad)
+							case *ssa.FreeVar:
+								stores = freeVarStores(ad)
+							}
+							if len(stores) == 0 {
+								all = false
+							}
+							for _, sv := range stores {
+								if okVal(sv, d+1) == "" {
+									all = false
+								}
+							}
+							if all {
+								return "a saved value of the counter"
+							}
+						}
+					case *ssa.Parameter:
+						if isCounter(p, x.Parent(), x) {
+							return "a counted parameter"
+						}
+					case *ssa.Phi:
+						for _, e := range x.Edges {
+							if okVal(e, d+1) == "" {
+								return ""
+							}
+						}
+						return "counter values"
+					case *ssa.Const:
+						if len(p.directAllocs(fa.X, 0)) > 0 {
+							return "the initial value of an object made here"
+						}
+					}
+					return ""
+				}
+				why := okVal(st.Val, 0)
+				if why == "" && len(p.directAllocs(fa.X, 0)) > 0 {
+					// initialising a fresh object from something that is not a counter: judged by the bound rules
+					if _, isK := st.Val.(*ssa.Const); isK {
+						why = "the initial value of an object made here"
+					}
+				}
+				if why != "" {
+					r.OK(key, p.InstrPos(in), "stores %s", why)
+				} else {
+					r.Bad(key, p.InstrPos(in), "%s, which a nesting bound compares with its constant, is set to %s: not a step of the counter and not a hand-over of it — the count starts again here, and the recursion it bounds (nested definitions, nested calls) is no longer bounded: a deep enough input exhausts the stack", name, p.VN(st.Val))
+				}
+			}
+		}
+	}
+	if n == 0 {
+		r.Unk("none", "-", "no store to a counter field found")
+	}
+}
+
+// freeVarStores: what the enclosing function (and its closures) store to the variable a free variable stands for.
+func freeVarStores(fv *ssa.FreeVar) []ssa.Value {
+	fn := fv.Parent()
+	idx := -1
+	for i, v := range fn.FreeVars {
+		if v == fv {
+			idx = i
+		}
+	}
+	parent := fn.Parent()
+	if idx < 0 || parent == nil {
+		return nil
+	}
+	for _, b := range parent.Blocks {
+		for _, in := range b.Instrs {
+			if mc, ok := in.(*ssa.MakeClosure); ok && mc.Fn == ssa.Value(fn) && idx < len(mc.Bindings) {
+				switch ad := mc.Bindings[idx].(type) {
+				case *ssa.Alloc:
+					return allStoresTo(ad)
+				case *ssa.FreeVar:
+					return freeVarStores(ad)
+				}
+			}
+		}
+	}
+	return nil
+}
+
+// steppedSomewhere: some function of the package stores <the same field> + k (k > 0) into the field fa denotes.
+func steppedSomewhere(p *Prog, fa *ssa.FieldAddr) bool {
+	n := structOf(fa.X.Type())
+	if n == nil {
+		return false
+	}
+	same := func(v ssa.Value) bool {
+		u, ok := v.(*ssa.UnOp)
+		if !ok || u.Op != token.MUL {
+			return false
+		}
+		fb, ok := u.X.(*ssa.FieldAddr)
+		return ok && fb.Field == fa.Field && structOf(fb.X.Type()) == n
+	}
+	for _, f := range p.Funcs {
+		if !p.InPkg(f) {
+			continue
+		}
+		for _, b := range f.Blocks {
+			for _, in := range b.Instrs {
+				st, ok := in.(*ssa.Store)
+				if !ok {
+					continue
+				}
+				fb, ok := st.Addr.(*ssa.FieldAddr)
+				if !ok || fb.Field != fa.Field || structOf(fb.X.Type()) != n {
+					continue
+				}
+				if add, ok := st.Val.(*ssa.BinOp); ok && add.Op == token.ADD && same(add.X) {
+					if k, isK := constInt(add.Y); isK && k > 0 {
+						return true
+					}
+				}
+			}
+		}
+	}
+	return false
+}
